@@ -266,6 +266,15 @@ impl Lab {
         Ok(StepResult { replies, sentinel_request: sreq, sentinel_proto: sproto, sentinel_replies, t0, t1, process_calls: calls, sent_ok })
     }
 
+    /// send datagrams WITHOUT a sentinel and let the server process them (`calls` process_events calls;
+    /// the last ones block for the 100 ms poll timeout). Replies are left in the client sockets.
+    pub fn feed(&mut self, sends: &[(usize, Vec<u8>)], calls: u32) -> Result<(), String> {
+        for (s, d) in sends {
+            let _ = self.socks[*s].send_to(d, self.addr);
+        }
+        self.idle_pump(calls)
+    }
+
     /// pump the server with nothing queued (lets timers fire); returns Err on panic
     pub fn idle_pump(&mut self, calls: u32) -> Result<(), String> {
         for _ in 0..calls {
